@@ -46,6 +46,8 @@ struct Cfg {
     repliers_leave: bool,
     profiles: Vec<u8>,
     prefill: usize,
+    /// (step, count): see pubsub.rs
+    storm: Option<(usize, usize)>,
 }
 
 fn plan(profile: u8) -> SinkPlan {
@@ -94,6 +96,13 @@ fn gen_cfg(rng: &mut Rng, family: &str) -> Cfg {
         repliers_leave: matches!(family, "c10" | "c08" | "c09" | "c16"),
         profiles,
         prefill: if family == "burst" && rng.pct(60) { rng.usize(n_reqs + n_reps + 1) } else { 0 },
+        storm: if family == "burst" && rng.pct(70) {
+            let total = n_reqs + n_reps;
+            let count = if rng.pct(50) { rng.range(1, total as u64) as usize } else { total - rng.usize(total.min(6)) };
+            Some((if rng.pct(40) { 0 } else { rng.usize(steps) }, count))
+        } else {
+            None
+        },
     }
 }
 
@@ -674,7 +683,7 @@ impl Sim {
                 if !st.queue.is_empty() {
                     let never = st.first_touch.is_none();
                     self.findings.push(Finding {
-                        class: "sleep",
+                        class: if never { "abandoned" } else { "sleep" },
                         sig: format!("reqrep/sleep/unread-requests{}", if never { "/registration-unnoticed" } else { "" }),
                         detail: format!("{}: router parked with no wake-up outstanding while {} has {} frame(s) ready{}", at, pe.label, st.queue.len(), if never { " (registration never noticed)" } else { "" }),
                     });
@@ -1055,7 +1064,7 @@ impl Sim {
             if !yielded {
                 let never = w.peers[q].stream.as_ref().unwrap().first_touch.is_none();
                 self.findings.push(Finding {
-                    class: "sleep",
+                    class: if never { "abandoned" } else { "sleep" },
                     sig: format!("reqrep/sleep/probe-request-unread{}", if never { "/registration-unnoticed" } else { "" }),
                     detail: format!("after quiescence {} sent a probe request; the router never read it{}", w.peers[q].label, if never { " (requestor registration unnoticed)" } else { "" }),
                 });
@@ -1214,6 +1223,28 @@ pub fn run(seed: u64, family: &str, keep_dump: bool) -> RunResult {
         if cfg.close_at == Some(step) && !sim.closed {
             sim.close();
             continue;
+        }
+        if let Some((at, count)) = cfg.storm {
+            if at == step && !sim.closed {
+                let mut fresh: Vec<usize> = {
+                    let w = lock(&sh);
+                    sim.reqs.iter().chain(sim.reps.iter()).copied().filter(|p| w.peers[*p].reg_sent.is_none()).collect()
+                };
+                lock(&sh).act(format!("registration storm: up to {} peers register back to back", count));
+                for _ in 0..count.min(fresh.len()) {
+                    let k = sim.rng.usize(fresh.len());
+                    let p = fresh.swap_remove(k);
+                    sim.register(p);
+                    if sim.reqs.contains(&p) && sim.rng.pct(40) {
+                        sim.request(p, "request", false);
+                    }
+                }
+                if sim.settle("after registration storm") && sim.alive {
+                    sim.quiescent_checks("quiescence after a registration storm");
+                }
+                sim.end_settle();
+                continue;
+            }
         }
         let mut acts: Vec<(A, u32)> = vec![];
         if sim.flag.is_woken() {
@@ -1444,7 +1475,7 @@ pub fn run(seed: u64, family: &str, keep_dump: bool) -> RunResult {
         "engine": "routersim/reqrep", "family": family, "seed": seed,
         "n_requestors": cfg.n_reqs, "n_repliers": cfg.n_reps, "requests": cfg.requests, "steps": cfg.steps,
         "spurious_polls": cfg.spurious, "close_at": cfg.close_at, "close_at_end": cfg.close_at_end,
-        "faults": cfg.faults, "hostile": cfg.hostile, "profiles": cfg.profiles, "registrations_queued_before_first_poll": cfg.prefill,
+        "faults": cfg.faults, "hostile": cfg.hostile, "profiles": cfg.profiles, "registrations_queued_before_first_poll": cfg.prefill, "registration_storm_step_count": cfg.storm,
     });
     let dump = if keep_dump || !sim.findings.is_empty() {
         Some(dump_world(&w, 500))
